@@ -127,7 +127,7 @@ def _validate(case):
                 raise core.InvalidCase
         if sp.get("am", "default") not in ("default", "none", "post") or any(x not in (500, 503) for x in sp.get("fl", [])):
             raise core.InvalidCase
-        if sp.get("bf", 0) not in (0, 0.5, 100) or sp.get("bm", 120) not in (1, 120) or sp.get("jit", 0.0) not in (0.0, 0.3):
+        if sp.get("bf", 0) not in (0, 0.5, 100) or sp.get("bm", 120) not in (0, 0.5, 1, 120) or sp.get("jit", 0.0) not in (0.0, 0.3):
             raise core.InvalidCase
         if not all(isinstance(sp.get(k, True), bool) for k in ("ros", "rra")):
             raise core.InvalidCase
@@ -341,6 +341,8 @@ def enum_cases(tier):
         if status is None and other is None:
             continue
         grids.append({"t": "retry", "total": total, "status": status, "other": other, "fl": [503]})
+    for bf, bm, jit in itertools.product((0.5, 100), (0, 0.5, 1, 120), (0.0, 0.3)):
+        grids.append({"t": "retry", "total": 3, "bf": bf, "bm": bm, "jit": jit, "fl": [503]})
     grids += [{"t": "false"}, {"t": "none"}, {"t": "int", "v": 0}, {"t": "int", "v": 1}, {"t": "int", "v": 2}]
     variants = [("GET", "default", "direct", "request"), ("POST", "default", "direct", "request"), ("POST", "none", "fwd", "pool"), ("PUT", "post", "direct", "pool"), ("POST", "post", "fwd", "request")]
     if tier != "quick":
@@ -368,7 +370,7 @@ def _hyp():
     retry = st.fixed_dictionaries({
         "t": st.just("retry"), "total": st.sampled_from([None, False, 0, 1, 2, 3, 5]), "connect": crb, "read": crb, "status": budget, "other": budget,
         "am": st.sampled_from(["default", "default", "none", "post"]), "fl": st.sampled_from([[], [500], [503], [500, 503]]),
-        "ros": st.booleans(), "rra": st.booleans(), "bf": st.sampled_from([0, 0.5, 100]), "bm": st.sampled_from([1, 120]), "jit": st.sampled_from([0.0, 0.0, 0.3]),
+        "ros": st.booleans(), "rra": st.booleans(), "bf": st.sampled_from([0, 0.5, 100]), "bm": st.sampled_from([0, 0.5, 1, 120]), "jit": st.sampled_from([0.0, 0.0, 0.3]),
     })
     spec = st.one_of(retry, retry, retry, st.just({"t": "false"}), st.just({"t": "none"}), st.builds(lambda v: {"t": "int", "v": v}, st.integers(0, 4)))
     outcome = st.one_of(st.sampled_from(FAULTS), st.sampled_from(FAULTS), st.sampled_from(RESPS))
